@@ -421,7 +421,33 @@ var fuzzValues = []string{"x", "x*", "*x", "a*b*c", "*", "\"a b\"", "'a b'", "`a
 	"x-y_z.w", "-x", "$x", "a:b", "", "  ", "#c\n x", "x # c", "é", "ÀÉ", "a/b/c", "/a/b", "1e5", "-1.5", "\t", "\\*", "a\\ b", "\"a\\\"b\""}
 var fuzzGlue = []string{" and ", " or ", " AND ", " OR ", " not ", " ", "", " | fields a, b", " | fields except a", " | ", "|", " and not ", " or not ", ")", "(", " ( ", " ) "}
 
+var cleanFields = []string{"k", "t", "p", "o.x", "n.x", "m", "_exists_", "`k`", "\"t\""}
+var cleanValues = []string{"x", "x*", "*x", "a*b*c", "*", "\"a b\"", "'a b'", "`a b`", "\"a\\*b\"", "'it\\'s'", "\"\\u00e9\"", "`raw\\n`",
+	"[1, 5]", "(1, 5)", "[*, 5]", "[1, *)", "in(a, b)", "in(a)", "in(\"a b\", c*)", "x-y_z.w", "é", "ÀÉ", "a/b/c", "1e5", "abc123", "\"\"", "'a:b'", "\"(x)\""}
+
+// cleanString: grammar-derived, (mostly) valid SeqQL; legacy syntax differs, so the legacy parser
+// sees a mix of valid and invalid inputs from it
+func cleanString(r *rng.R, depth int) string {
+	if depth > 0 && r.Chance(1, 3) {
+		switch r.Intn(3) {
+		case 0:
+			return "(" + cleanString(r, depth-1) + ")"
+		case 1:
+			return "not " + cleanString(r, depth-1)
+		}
+		return cleanString(r, depth-1) + rng.Pick(r, []string{" and ", " or ", " AND ", " OR "}) + cleanString(r, depth-1)
+	}
+	return rng.Pick(r, cleanFields) + ":" + rng.Pick(r, cleanValues)
+}
+
 func fuzzString(r *rng.R) string {
+	if r.Chance(3, 5) {
+		s := cleanString(r, r.Range(0, 4))
+		if r.Chance(1, 6) {
+			s += rng.Pick(r, []string{" | fields a, b", " | fields except a", " # comment", "\n# c\n"})
+		}
+		return s
+	}
 	var sb strings.Builder
 	n := r.Range(1, 5)
 	for i := 0; i < n; i++ {
